@@ -1,5 +1,5 @@
 /- L0 facts about the accessors, Display and Default of KeltnerChannel (split from Lemmas/KeltnerChannel.lean so that a change to one method only invalidates the facts about that method) -/
-import TaRs.Lemmas.KeltnerChannel
+import TaRs.Lemmas.Core.KeltnerChannel
 import TaRs.Lemmas.Misc.ExponentialMovingAverage
 import TaRs.Lemmas.Misc.AverageTrueRange
 set_option linter.unusedSectionVars false
